@@ -371,15 +371,39 @@ def relabelled(s3, rel):
     bare = {t % n for t in rel.get("base_only", [])}
     backbone = {"P", "OP1", "OP2", "OP3", "O1P", "O2P", "O3P", "C2'", "C3'", "C4'", "C5'", "O2'", "O3'", "O4'", "O5'"}
 
+    # ... or to backbone + sugar under a component name of their own (an abasic site such as 3DR): a nucleotide by its
+    # atoms, with the one-letter name '?' - it has a BPSEQ line and a place in its strand, both spelt '?'
+    abasic = {t % n for t in rel.get("abasic", [])} - trunc - bare
+
     def ak(ri, k):
         name = s3.residues[ri].atoms[k].name
         if ri in trunc:
             return name in keep_names
         if ri in bare:
             return name not in backbone
+        if ri in abasic:
+            return name in backbone or name == "C1'"
         return True
 
-    return gen3d.rebuild(s3, keep=set(range(n)) - drops, ident_fn=ident_fn, atom_keep=ak if (trunc or bare) else None)
+    out = gen3d.rebuild(s3, keep=set(range(n)) - drops, ident_fn=ident_fn, atom_keep=ak if (trunc or bare or abasic) else None)
+    if abasic:
+        from rnapolis.common import ResidueAuth, ResidueLabel
+        from rnapolis.tertiary import Atom, Residue3D, Structure3D
+
+        idents = set()
+        for ri in abasic - drops:
+            new = ident_fn(ri, s3.residues[ri].chain, s3.residues[ri].number)
+            idents.add((new[0], new[1], new[2] if len(new) >= 3 else s3.residues[ri].icode))
+        residues = []
+        for r in out.residues:
+            if (r.chain, r.number, r.icode) in idents and r.is_nucleotide:
+                label = ResidueLabel(r.label.chain, r.label.number, "3DR") if r.label is not None else None
+                auth = ResidueAuth(r.auth.chain, r.auth.number, r.auth.icode, "3DR") if r.auth is not None else None
+                atoms = tuple(Atom(a.entity_id, label, auth, a.model, a.name, a.x, a.y, a.z, a.occupancy) for a in r.atoms)
+                r = Residue3D(label, auth, r.model, "?", atoms)
+            residues.append(r)
+        out = Structure3D(residues)
+    return out
 
 
 def oracle(case):
@@ -460,6 +484,8 @@ def classify(case):
         labs.append("via-adapter")
     if case.get("own_annotation"):
         labs.append("own-annotation")
+    if (case.get("relabel") or {}).get("abasic"):
+        labs.append("abasic-sites-with-letter-?")
     if case.get("relabel"):
         labs.append("relabelled-chains-and-numbers")
     if case.get("naming"):
@@ -506,6 +532,7 @@ def st_cases(files):
                 "offsets": draw(st.lists(st.sampled_from([0, 0, 1, 50, 100, -30, 1000]), min_size=1, max_size=4)),
                 "icode_runs": draw(st.sampled_from([0, 0, 0, 2, 3])),
                 "truncate": draw(st.lists(st.integers(0, 400), max_size=3)),
+                "abasic": draw(st.sampled_from([[], [], [5], [2, 9], [0, 7, 8], [11, 30, 31, 60]])),
                 "names": draw(st.sampled_from([["A", "B", "C", "D"], ["B", "A", "D", "C"], ["X", "X2", "Y", "Z"], ["A", "A", "B", "B"],
                                                 # a chain id that comes back after another chain (ligand-like nucleotides
                                                 # or HETATM residues listed after the other chains): two strands, one name
@@ -552,6 +579,11 @@ def run_shard(spec) -> ShardResult:
                     check_case(PROP_ID, oracle, case, res, to_json=to_json)
                     nt, labs = classify(case)
                     res.note_case(to_json(case), nt, labs)
+                    # ... and with every ninth residue an abasic site (backbone and sugar under the name 3DR, letter '?')
+                    case = {"file": f, "own_annotation": True, "find_gaps": fg, "via_adapter": via, "relabel": {"abasic": list(range(4, 400, 9))}}
+                    check_case(PROP_ID, oracle, case, res, to_json=to_json)
+                    nt, labs = classify(case)
+                    res.note_case(to_json(case), nt, labs + ["own-annotation-with-abasic-sites"], sample_cap=1)
     res.exhaustive = False
     return res
 
